@@ -285,6 +285,9 @@ func DecodeAlstSampleGroupEntry(name string, length uint32, sr bits.SliceReader)
 		entry.SampleOffset[i] = sr.ReadUint32()
 	}
 
+	if entry.Size() > uint64(length) {
+		return nil, fmt.Errorf("alst: roll_count %d does not fit in description length %d", entry.RollCount, length)
+	}
 	remaining := int(length-uint32(entry.Size())) / 4
 	if remaining <= 0 {
 		return entry, sr.AccError()
